@@ -13,7 +13,8 @@ for name in sorted(os.listdir(os.path.join(V, 'seeded'))):
     if not re.search(pat, name):
         continue
     d = os.path.join(V, 'seeded', name)
-    prop = json.load(open(os.path.join(d, 'meta.json')))['property']
+    meta = json.load(open(os.path.join(d, 'meta.json')))
+    prop = meta.get('checked_by') or meta['property']      # a seed written for one property may break the contract of a callee that is another property
     patch = os.path.join(d, 'patch.diff')
     if sh('git -C /repo apply --check %s' % patch).returncode != 0:
         res[name] = {'property': prop, 'result': 'patch does not apply to the current tree (the code it changed was repaired or moved since)'}
